@@ -45,11 +45,15 @@ fn strat<B: Backend>(tier: Tier, kind: u8) -> impl Strategy<Value = Case> {
         nonce_kind(),
         any::<u32>(),
         forced,
+        prop::bool::weighted(0.12),
     )
-        .prop_map(move |(secret, wrapped, wrapping, password, params, nonce, salt_seed, forced_iv)| {
+        .prop_map(move |(secret, wrapped, wrapping, password, params, nonce, salt_seed, forced_iv, same)| {
+            // one case in eight: the key is wrapped under ITSELF (for v2/v4 secret keys: the Ed25519 seed
+            // equals the wrapping key) - a conforming blob like any other
+            let wrapping = if same { wrapped.clone() } else { wrapping };
             // parallelism > 1 only where the back end supports it (the sibling check then skips libsodium)
             let params = match params {
-                PwParams::Argon2id { mem_bytes, time, para } => PwParams::Argon2id { mem_bytes: mem_bytes.max(8192 * para as u64), time, para },
+                PwParams::Argon2id { mem_bytes, time, para } => PwParams::Argon2id { mem_bytes: (mem_bytes / 1024 * 1024).max(8192 * para as u64), time, para },
                 p => p,
             };
             Case { kind, secret: secret && kind != 2, wrapped, wrapping, password, params, nonce, salt_seed, forced_iv }
@@ -448,7 +452,7 @@ pub fn def() -> PropertyDef {
     PropertyDef {
         id: "C07",
         level: "exploration",
-        rule: "proptest cases (kind {PIE, PBKW, PKE} x wrapped key {local, secret} x wrapping key / password / recipient x PBKW parameters within budget (p = 1..4 where supported) x nonce kind {seeded, zero, ones, counter block at the 64/128-bit wrap} x optional forced derived counter block (paseto_verif hook; v1/v3 PIE and PKE)); relations: (1) the library's blob equals the reference model's blob recomputed from the nonce/salt/ephemeral key it embeds (PKE: recomputed with the recipient secret; with scripted RNG the ephemeral key itself is compared), (2) model-built blobs with model-chosen nonces (incl. 0xff..ff counter blocks in k1/k3 password wraps) unwrap to the same key on every back end of the version, (3) the sibling unwraps this back end's output, (4) Argon2id parallelism 2..4 on every v2/v4 back end: the back end either declines or produces the blob the reference (argon2 crate, p lanes) unwraps, (5) one password wrap per v2/v4 back end with a memory cost of 4 GiB or just above (byte counts beyond 32 bits): must wrap, and the reference unwraps it. Non-trivial iff wrap-around nonce kind, secret key payload, PBKW (non-default parameters) or forced IV",
+        rule: "proptest cases (kind {PIE, PBKW, PKE} x wrapped key {local, secret} x wrapping key / password / recipient (one case in eight wraps a key under itself) x PBKW parameters within budget (p = 1..4 where supported) x nonce kind {seeded, zero, ones, counter block at the 64/128-bit wrap} x optional forced derived counter block (paseto_verif hook; v1/v3 PIE and PKE)); relations: (1) the library's blob equals the reference model's blob recomputed from the nonce/salt/ephemeral key it embeds (PKE: recomputed with the recipient secret; with scripted RNG the ephemeral key itself is compared), (2) model-built blobs with model-chosen nonces (incl. 0xff..ff counter blocks in k1/k3 password wraps) unwrap to the same key on every back end of the version, (3) the sibling unwraps this back end's output, (4) Argon2id parallelism 2..4 on every v2/v4 back end: the back end either declines or produces the blob the reference (argon2 crate, p lanes) unwraps, (5) one password wrap per v2/v4 back end with a memory cost of 4 GiB or just above (byte counts beyond 32 bits): must wrap, and the reference unwraps it. Non-trivial iff wrap-around nonce kind, secret key payload, PBKW (non-default parameters) or forced IV",
         assumptions: vec!["reference model validated on the upstream vectors", "Argon2id through libsodium for parallelism 1 and through the argon2 crate for parallelism 2..4 (RustCrypto back ends only); memory multiples of 1 KiB"],
         subs,
     }
